@@ -14,10 +14,11 @@ def strip(c):
     return {k: v for k, v in c.items() if k != '_info'}
 
 
-def run_child(cases, hashseed, shuffle):
+def run_child(cases, hashseed, shuffle, cwd_mode=0):
     env = dict(os.environ)
     env['PYTHONHASHSEED'] = str(hashseed)
     env['VERIF_CHILD_SHUFFLE'] = str(shuffle)
+    env['VERIF_CHILD_CWD'] = str(cwd_mode)
     p = subprocess.run([sys.executable, os.path.join(VERIF, 'harness', 'child_build.py')],
                        input=json.dumps(cases).encode(), stdout=subprocess.PIPE, stderr=subprocess.PIPE, env=env,
                        timeout=600)
@@ -32,7 +33,7 @@ class C08(Prop):
     proof_modules = ['DznProofs.C08']
     level_rule = ('configurations whose port selections name 2-5 ports, built in child interpreters with '
                   'PYTHONHASHSEED 0..15 (quick) / 0..127 (thorough), each with a different construction order of '
-                  'the equal sets and its own order of the builds within the process; sha256 of all files compared across children and with the Lean model; '
+                  'the equal sets, its own order of the builds within the process and its own working directory (model file absent / regular file / symbolic link to another name); sha256 of all files compared across children and with the Lean model; '
                   'GeneratedContent.hash compared with the model MD5; non-trivial = >=2 names in a selection; '
                   'distinct = distinct (model, configuration)')
     assumptions = ['determinism "across processes" is the absence of any other input of the model function; '
@@ -109,7 +110,7 @@ class C08(Prop):
         seeds = list(range(16 if tier == 'quick' else 128))
         cases = self._cases
         with ThreadPoolExecutor(max_workers=16) as ex:
-            results = list(ex.map(lambda h: run_child(cases, h, h), seeds))
+            results = list(ex.map(lambda h: run_child(cases, h, h, h % 3), seeds))
         # model output (order as given in the case)
         recs = evaluate(self, cases)
         failures, disagreements, shapes = [], [], []
